@@ -37,6 +37,12 @@ Correspondence (model: `lean/PercevalModel/Model/C13.lean`, driver `lean/Driver/
   real code: a fresh `Source` of the noise in force, `SVDistribution(bs)`), and the reply with the polarised simulation
   of the input in force (`proc_refines_stateless`, `proc_polarised_input_exact`).
 
+* *shared component objects* (extension 4): `Circuit.add` stores the object itself; circuits built from a pool of
+  long-lived objects held several times (two ranges of one circuit, the same range twice, inside and outside a
+  sub-circuit, shared sub-circuits merged or not, `add` / `//` / `@`) through every entry point above, the shared object
+  re-tuned in place between two evaluations of the long-lived circuit / simulator / Processor.  The model gets the
+  sub-tree once per occurrence (object identity is irrelevant for `unitaryOfPol`).
+
 The native `BasicState` keeps annotation angles in single precision, so the Jones angles are read
 *back* from the constructed state; their cos/sin (float64, external functions of the model) are sent
 to Lean as exact dyadic rationals.  Leaf matrices of ordinary components come from each leaf's own
@@ -2859,7 +2865,11 @@ def run(chk: core.Check):
                 "random, v+h>n corner, n+1}, threshold/PPNR/PNR detectors) on polarised Processors and simulators; "
                 "plus every component class x use_polarization flag on ONE component, and Processor histories "
                 "(with_input / with_polarized_input / noise / min_detected_photons_filter / clear / probs) against the "
-                "model's bookkeeping machine; distinct = distinct "
+                "model's bookkeeping machine; plus SHARED component objects: circuits built from a pool of 1-2 long-lived "
+                "objects (polarising / ordinary leaf, sub-circuit) each added 2-3 times (two ranges of one circuit, the same "
+                "range twice, inside and outside a sub-circuit; add / `//` / `@`) through compute_unitary, probs, Processor, "
+                "evolve, selection, re-tuned in place between two evaluations, and sessions on such circuits (the shared "
+                "object re-tuned / added once more between queries); distinct = distinct "
                 "(path, circuit shape, input pattern / step pattern); non-trivial = circuit has a polarising and an "
                 "ordinary mode-mixing component and (for simulations) a non-H/V polarisation")
     chk.assumptions = [
@@ -2931,10 +2941,10 @@ def run(chk: core.Check):
     run_leaves(chk, rng, chk.pick(2, 10))
     run_procs(chk, rng, chk.pick(70, 500), max_m, max_depth, max_ops, nmax)
     # extension 4 (generated last, for the same reason)
-    shared_cases = [gen_case_shared(chk, rng, max_m, max_depth, max_ops, nmax) for _ in range(chk.pick(110, 260))]
+    shared_cases = [gen_case_shared(chk, rng, max_m, max_depth, max_ops, nmax) for _ in range(chk.pick(110, 200))]
     handle_batch(chk, shared_cases)
     handle_sessions(chk, [gen_session(chk, rng, max_m, max_depth, max_ops, nmax, chk.pick(4, 5), shared=True)
-                          for _ in range(chk.pick(24, 60))])
+                          for _ in range(chk.pick(24, 40))])
 
 
 def replay(chk, data):
